@@ -38,6 +38,14 @@ def _(p):
     return ch_c15.ws_random_check(p["canon"], p["spaced"])
 
 
+@replay("c14_parser_copies")
+def _(p):
+    from harness import ch_c14
+
+    found = ch_c14.parser_copies_problems()
+    return f"parser-copy: {found[0][1]}" if found else None
+
+
 @replay("c14_string")
 def _(p):
     from harness import ch_c14
@@ -78,6 +86,14 @@ def _(p):
     from harness import c17_native
 
     found = c17_native.check_generated(p["formula"], set(p["used"]))
+    return f"{found[0][0]}: {found[0][1]}" if found else None
+
+
+@replay("c17_live_spec")
+def _(p):
+    from harness import c17_native
+
+    found = c17_native.check_live_spec()
     return f"{found[0][0]}: {found[0][1]}" if found else None
 
 
